@@ -124,7 +124,10 @@ def gen_case(seed, tier="quick"):
                 where = {"mask": mask}
                 cnt = sum(mask)
             rows = {g: [C.value(rng, g) for _ in range(cnt)] for g in gnames}
-            steps.append({"s": "setrows", "where": where, "rows": rows, "m": C.spell(rng, sys_, True, all_mom=rng.random() < 0.5)})
+            perm = list(range(len(gnames)))
+            if rng.random() < 0.5:
+                rng.shuffle(perm)  # the right-hand side may list its fields in any order: assignment is by name
+            steps.append({"s": "setrows", "where": where, "rows": rows, "m": C.spell(rng, sys_, True, all_mom=rng.random() < 0.5), "perm": perm})
         elif k == "field":
             g = rng.choice(gnames)
             steps.append({"s": "field", "g": g, "m": _spell(rng, g)})
@@ -428,8 +431,9 @@ def run_case(case, vector):
             where = st["where"]
             w = slice(*where["slice"]) if "slice" in where else numpy.array(where["mask"], dtype=bool)
             cnt = len(st["rows"][gn[0]])
-            sg = numpy.zeros(cnt, dtype=[(g, "f8") for g in gn])
-            sm = numpy.zeros(cnt, dtype=[(nm, "f8") for nm in st["m"]])
+            perm = st.get("perm") or list(range(len(gn)))
+            sg = numpy.zeros(cnt, dtype=[(gn[q], "f8") for q in perm])
+            sm = numpy.zeros(cnt, dtype=[(st["m"][q], "f8") for q in perm])
             for g, nm in zip(gn, st["m"]):
                 sg[g] = st["rows"][g]
                 sm[nm] = st["rows"][g]
